@@ -114,3 +114,25 @@ def gen_cases(ctx, n, stream="systems", stop_frac=0.0, shapes=None, flags=None, 
         out.append(g)
         i += 1
     return out
+
+
+def corr_poly(ctx, driver, cases, results):
+    """model expand+linearity verdict (on the user's own spelling) vs the toolbox's judgement of the shape"""
+    ops = []
+    for case, res in zip(cases, results):
+        if not isinstance(res, dict):
+            continue
+        for pc in res.get("poly_cases") or []:
+            if "bridge_error" in pc:
+                ctx.count("poly_bridge_error")
+                ctx.cov.setdefault("poly_bridge_errors", []).append(pc)
+                continue
+            ops.append((case, pc))
+    if driver is None or not ops:
+        return
+    ans = driver.ask([("poly-verdict", pc["payload"]) for _, pc in ops])
+    for (case, pc), a in zip(ops, ans):
+        ctx.count("corr_poly")
+        ctx.count("poly_verdict:%s" % a.get("linear_cc"))
+        if a.get("linear_cc") != pc["real_lin"]:
+            ctx.tie_break("corr:poly-verdict", {"case": case["indict"], "variable": pc["var"], "rhs": pc["rhs"], "model": a, "impl_shape_is_linear": pc["real_lin"]})
